@@ -180,6 +180,10 @@ def rand_rotation(r) -> Tuple[Tuple[float, float, float, float], str]:
 
 def rand_translation(r) -> Tuple[float, float, float]:
     s = r.choice([0.0, 1.0, 100.0, 1e4])
+    if r.random() < 0.12:
+        # whole-number coordinates given as Python ints (an integer array once the library wraps them)
+        k = int(max(s, 1.0))
+        return (r.randint(-k, k), r.randint(-k, k), r.randint(-3, 3))
     return (r.uniform(-s, s), r.uniform(-s, s), r.uniform(-s, s) * 0.01)
 
 
@@ -207,7 +211,7 @@ def run(ctx: Ctx) -> None:
         install(taps, ctx)
         # ---- round trips and pose transforms ----
         for idx in ctx.indices("roundtrip", 2000 if ctx.quick else 400000):
-            with ctx.case_guard("roundtrip"):
+            with ctx.case_guard("roundtrip", library_must_not_raise="C18/valid_transform_raised"):
                 r = ctx.rng("roundtrip", idx)
                 q, cls = rand_rotation(r)
                 t = rand_translation(r)
@@ -234,7 +238,7 @@ def run(ctx: Ctx) -> None:
 
         # ---- chains ----
         for idx in ctx.indices("chain", 800 if ctx.quick else 200000):
-            with ctx.case_guard("chain"):
+            with ctx.case_guard("chain", library_must_not_raise="C18/valid_transform_raised"):
                 r = ctx.rng("chain", idx)
                 L = r.randint(2, 5)
                 frames = r.sample(FRAMES, L + 1)
